@@ -51,7 +51,15 @@ type (
 func BuildExecutor(dbType types.DBType, transactionMode types.TransactionMode, query string) (SQLExecutor, error) {
 	parseContext, err := parser.DoParser(query)
 	if err != nil {
-		return nil, err
+		if transactionMode == types.ATMode {
+			// a statement that cannot be analysed cannot be given an undo log
+			return nil, err
+		}
+		// outside the AT mode the statement carries no duty for this proxy: pass it on unchanged
+		// and let the database judge it, as the underlying driver would
+		e := &BaseExecutor{}
+		e.Interceptors(commonHook)
+		return e, nil
 	}
 
 	hooks := make([]SQLHook, 0, 4)
